@@ -380,6 +380,16 @@ func TestC15(t *testing.T) {
 		panics = append(panics, w.panics...)
 	}
 
+	// ---- per-app granularity of the liquidity hooks: multi-app worlds, natural poison and injected faults per app ---------
+	{
+		w0 := &c15World{t: t, tr: tr}
+		c15ItemsCampaign(w0, 3, scale(5, 0))
+		if thorough() {
+			c15ItemsCampaign(w0, 2, 0)
+		}
+		panics = append(panics, w0.panics...)
+	}
+
 	// ---- generation 1 world ---------------------------------------------------------------------------------
 	{
 		w := c15NewWorld(t, tr, 12)
